@@ -7,6 +7,7 @@ package c10
 
 import (
 	"fmt"
+	"math"
 	"os"
 	"sort"
 	"strings"
@@ -42,6 +43,16 @@ func compile(model ref.PatModel, upper bool, k int, indel bool) (*target, error)
 	ap, err := obiapat.MakeApatPattern(text, k, indel)
 	if err != nil {
 		return nil, err
+	}
+	if (len(text)+k)%2 == 0 {
+		// the commands derive the reverse-complemented pattern before they search with the direct
+		// one (sometimes twice): deriving it must not change the pattern it is derived from
+		if rc, err := ap.ReverseComplement(); err == nil {
+			if (len(text)+k)%4 == 0 {
+				ap.ReverseComplement()
+			}
+			_ = rc
+		}
 	}
 	return &target{model: model, text: text, k: k, indel: indel, ap: ap}, nil
 }
@@ -420,6 +431,11 @@ func windows(c *core.Ctx, n int) [][2]int {
 			l = r.Intn(n - b + 1)
 		}
 		w = append(w, [2]int{b, l})
+	}
+	if r.Intn(3) == 0 {
+		// "up to the end" written as a very large length (callers pass math.MaxInt32 or a buffer size)
+		b := r.Intn(n + 1)
+		w = append(w, [2]int{b, []int{1 << 20, 1 << 30, math.MaxInt32, math.MaxInt32 - 64, math.MaxInt32 - b}[r.Intn(5)]})
 	}
 	return w
 }
